@@ -95,13 +95,28 @@ func (c *Ctx) Callers(target *ssa.Function) []*ssa.Function {
 	var out []*ssa.Function
 	for _, fn := range c.Scope {
 		for _, ci := range Calls(fn) {
-			if IsCallTo(ci.Common(), target) {
+			if IsCallTo(ci.Common(), target) || seamAllHas(ci.Common(), target) {
 				out = append(out, fn)
 				break
 			}
 		}
 	}
 	return out
+}
+
+// seamAllHas: the invoke goes through an unexported in-scope interface one of whose implementations is target.
+func seamAllHas(com *ssa.CallCommon, target *ssa.Function) bool {
+	for _, g := range SeamAll(com) {
+		if g == target || (g.Origin() != nil && g.Origin() == target) {
+			return true
+		}
+	}
+	return false
+}
+
+// MayCall: the call's static callee is fn, or it is an invoke through an internal seam that fn implements.
+func MayCall(com *ssa.CallCommon, fn *ssa.Function) bool {
+	return IsCallTo(com, fn) || seamAllHas(com, fn)
 }
 
 // CallSites lists all in-scope call instructions matching pred.
